@@ -235,6 +235,8 @@ func (c06) Run(e *simkit.Env, cc any) {
 		h        *Hooks
 		aliases  []gen.Alias
 		events   []gen.Atom
+		metas    []gen.Alias
+		metaH    []*Hooks
 		related  bool
 	}
 	var procs []*proc
@@ -263,6 +265,10 @@ func (c06) Run(e *simkit.Env, cc any) {
 			case string:
 				switch v {
 				case "die":
+					// leave the meta-processes something to do while their owner goes away
+					for _, ma := range p.metas {
+						pp.SendWithPriority(ma, "bye", []gen.MessagePriority{gen.MessagePriorityNormal, gen.MessagePriorityHigh}[p.id%2])
+					}
 					return fmt.Errorf("boom")
 				case "relate":
 					a, err := pp.CreateAlias()
@@ -272,6 +278,11 @@ func (c06) Run(e *simkit.Env, cc any) {
 					ev := gen.Atom(fmt.Sprintf("ev-%d", pp.PID().ID))
 					if _, err := pp.RegisterEvent(ev, gen.EventOptions{}); err == nil {
 						p.events = append(p.events, ev)
+					}
+					mh := &Hooks{Name: fmt.Sprintf("p%d-meta", p.id), Env: e}
+					if ma, err := pp.SpawnMeta(NewProbeMeta(mh), gen.MetaOptions{}); err == nil {
+						p.metas = append(p.metas, ma)
+						p.metaH = append(p.metaH, mh)
 					}
 				}
 			case gen.PID:
@@ -505,6 +516,12 @@ func (c06) Run(e *simkit.Env, cc any) {
 		}
 	}
 
+	// nothing in this workload panics on purpose: a panic raised by code of the repository while a
+	// name / alias / event is resolved means the identity resolved to something that is not a live process
+	if ps := e.InternalPanics(); len(ps) > 0 {
+		e.Fail("C06/resolve-panic", "code of the repository panicked while the registry was used: %s", ps[0])
+		return
+	}
 	// (c) release audit
 	mu.Lock()
 	ps := append([]*proc(nil), procs...)
@@ -544,6 +561,17 @@ func (c06) Run(e *simkit.Env, cc any) {
 				return
 			}
 			n.UnregisterEvent(ev)
+		}
+		for k, ma := range p.metas {
+			if err := n.Send(ma, "x"); err == nil {
+				e.Fail("C06/meta-not-released", "meta-process of terminated process %d still accepts messages", i)
+				return
+			}
+			if tc := p.metaH[k].TermCount.Load(); tc != 1 {
+				e.Fail("C06/meta-not-released", "meta-process of terminated process %d ran its terminate callback %d times at quiescence", i, tc)
+				return
+			}
+			e.Probe("meta-released")
 		}
 		if cons := tm.GetConsumersForTarget(p.pid); len(cons) != 0 {
 			e.Fail("C06/relation-leak-target", "terminated process %d is still the target of %d relation(s)", i, len(cons))
